@@ -6,7 +6,7 @@
 //!
 //! case line (sections separated by " | ", all numbers decimal, addresses as u32):
 //!   `<flavor 0=paused|n=multi n> <class> | N <mtu>* | R <k> (<net> <ip>)*k <extra local ips> <m> (<addr> <len> <gw|0> <slot>)*m | ...
-//!    | H <net> <ip> <masklen> <gw> | ... | D <src host> <dst ip> <ttl|-1> <len> <start ms> <expect 0|1> | ... | F (<frame idx> <ms>)*`
+//!    | H <net> <ip> <masklen> <gw> <wildcard listener 0|1> | ... | D <src host> <dst ip> <ttl|-1> <len> <start ms> <expect 0|1> | ... | F (<frame idx> <ms>)*`
 //! impl line: `OK quiet=<0|1> | f <tag> <net> <from> <to> <ttl> <src> <dst> <tos> <totlen> <ident> <flags> <frag> <proto> <body hex> | ...
 //!    | x <tag> <host> <src> <dst> <data hex> | ...`   or   `PANIC <site>`   or   `HANG`
 //! The extracted Coq validator reads `case ||| impl` and must ACCEPT.
@@ -61,6 +61,7 @@ struct HostC {
     ip: u32,
     masklen: u32,
     gw: u32,
+    wild: bool,
 }
 #[derive(Clone, Debug)]
 struct Dgram {
@@ -131,7 +132,7 @@ impl Scn {
             }
         }
         for h in &self.hosts {
-            s.push_str(&format!(" | H {} {} {} {}", h.net, h.ip, h.masklen, h.gw));
+            s.push_str(&format!(" | H {} {} {} {} {}", h.net, h.ip, h.masklen, h.gw, h.wild as u8));
         }
         for d in &self.dgrams {
             s.push_str(&format!(" | D {} {} {} {} {} {}", d.src, d.dst, d.ttl, d.len, d.start_ms, d.expect as u8));
@@ -172,7 +173,7 @@ impl Scn {
                     }
                     scn.routers.push(r);
                 }
-                "H" => scn.hosts.push(HostC { net: n(1) as usize, ip: n(2) as u32, masklen: n(3) as u32, gw: n(4) as u32 }),
+                "H" => scn.hosts.push(HostC { net: n(1) as usize, ip: n(2) as u32, masklen: n(3) as u32, gw: n(4) as u32, wild: n(5) != 0 }),
                 "D" => scn.dgrams.push(Dgram { src: n(1) as usize, dst: n(2) as u32, ttl: n(3), len: n(4) as usize, start_ms: n(5) as u64, expect: n(6) != 0 }),
                 "F" => {
                     let mut p = 1;
@@ -211,6 +212,8 @@ struct SendSpec {
 struct HostApp {
     idx: usize,
     ip: u32,
+    /// listen on 0.0.0.0 (like a socket bound to INADDR_ANY) instead of the host's own address
+    wild: bool,
     sends: Vec<SendSpec>,
 }
 
@@ -276,7 +279,11 @@ impl Protocol for HostApp {
         machine
             .protocol::<Udp>()
             .unwrap()
-            .listen(self.id(), Endpoint { address: self.ip.into(), port: PORT }, machine.clone())
+            .listen(
+                self.id(),
+                Endpoint { address: if self.wild { Ipv4Address::CURRENT_NETWORK } else { self.ip.into() }, port: PORT },
+                machine.clone(),
+            )
             .unwrap();
         initialized.wait().await;
         for s in self.sends.iter() {
@@ -369,7 +376,7 @@ fn child(case: &str) -> ! {
                 Ipv4::new(own),
                 Pci::new([nets[h.net].clone()]),
                 Arp::new().preconfig_subnet(ip, SubnetInfo { mask: Ipv4Mask::from_bitcount(h.masklen), default_gateway: h.gw.into() }),
-                HostApp { idx: hi, ip: h.ip, sends }
+                HostApp { idx: hi, ip: h.ip, wild: h.wild, sends }
             ];
             for mac in m.protocol::<Pci>().unwrap().mac_addresses() {
                 out.push(format!("tap {} {} H{}", h.net, mac, hi));
@@ -831,7 +838,7 @@ fn gen_scn(rng: &mut Rng) -> Scn {
                 _ => 30,
             };
             let hi = hosts.len();
-            hosts.push(HostC { net, ip: host_ip(net, hi), masklen, gw: router_ip(net, g) });
+            hosts.push(HostC { net, ip: host_ip(net, hi), masklen, gw: router_ip(net, g), wild: rng.coin(1, 4) });
         }
     }
     let mut mtus = vec![65535u32; t.nnets];
@@ -856,8 +863,8 @@ fn gen_scn(rng: &mut Rng) -> Scn {
                 routes[r].push(RouteE { addr: h.ip, len: 32, gw: e.gw, slot: e.slot });
             }
         }
-        // a less specific route to nowhere that must never win
-        if rng.coin(1, 6) {
+        // a less specific route to nowhere that must never win (all /24 entries are present)
+        if rng.coin(1, 6) && routes[r].iter().all(|e| e.len != 0) {
             routes[r].push(RouteE { addr: 0x0A00_0000, len: 16, gw: net_prefix(t.routers[r][0]) | 222, slot: 0 });
         }
         // shuffle the order of insertion
@@ -938,6 +945,9 @@ fn gen_scn(rng: &mut Rng) -> Scn {
         class = format!("gwhost_{}", tname);
         // a host whose default gateway does not exist, or is another host
         let h = rng.below(hosts.len() as u64) as usize;
+        for x in hosts.iter_mut() {
+            x.wild = false; // a wildcard listener behind a wrong HOST gateway takes everything: not a router matter
+        }
         hosts[h].gw = if rng.coin(1, 2) { net_prefix(hosts[h].net) | 201 } else { hosts[(h + 1) % hosts.len()].ip };
     } else {
         // outside the property's quantifier: inputs that no conforming configuration produces
